@@ -9,10 +9,10 @@ SER = [inst(F, "c18_v1_ser_%s" % n, Q if n in QUICK_SER else T, "1 value of kind
 SER += [inst(F, "c18_v1_ser_%s_%s" % (NAMES[a], NAMES[b]), Q if (a, b) == (11, 3) else T, "2 values of kinds %s, %s" % (NAMES[a], NAMES[b]),
              "V1 Serializer -> iterator agreement (chained)", covers=1, timeout=2400, mem_gb=24, cost=100) for a, b in ((11, 3), (13, 0), (2, 11), (12, 8), (10, 13))]
 
-TXT = [inst("dlt_text", "c18_v3_text_" + n, tiers, d, "V3 canonical text + separator rule", covers=1, timeout=1800, mem_gb=24) for n, tiers, d in (
-    ("bool", T, "1 bool"), ("u8", Q, "1 u8, all values"), ("i8", Q, "1 i8, all values"), ("u8_bool", Q, "u8, bool"),
-    ("emptyraw_u8", Q, "empty raw, u8"), ("emptystr_bool", T, "empty string, bool"), ("nulstr_i8", Q, "NUL-only string, i8"),
-    ("bool_emptyraw_u8", Q, "bool, empty raw, u8"), ("emptyraw_emptystr_u8", T, "empty raw, empty string, u8"))]
+TXT = [inst("dlt_text", "c18_v3_text_" + n, tiers, d, "V3 canonical text + separator rule", covers=1, timeout=3400, mem_gb=24) for n, tiers, d in (
+    ("bool", T, "1 bool"), ("u8", T, "1 u8, all values"), ("i8", T, "1 i8, all values"), ("u8_bool", T, "u8, bool"),
+    ("emptyraw_u8", T, "empty raw, u8"), ("emptystr_bool", T, "empty string, bool"), ("nulstr_i8", T, "NUL-only string, i8"),
+    ("bool_emptyraw_u8", T, "bool, empty raw, u8"), ("emptyraw_emptystr_u8", T, "empty raw, empty string, u8"))]
 
 PROP = {
     "manifest": dict(
